@@ -39,6 +39,31 @@ CHECKS['C18'] = {
     'explanation': 'A sanitizer abort counts as a violation for this property.',
 }
 
+CHECKS['C30'] = {
+    'harnesses': [{'harness': 'irq_sim', 'binary': 'irq_sim'}],
+    'technique': 'deterministic simulation: seeded schedules at atomic-access granularity (interrupt and thread families), linearizability against a bounded FIFO',
+    'design_ref': 'DESIGN.md 4.4, 6 (C30)',
+    'level_text': 'Seeded search over interleavings of try_push and try_pop of details::ring<1..4> at the granularity of its atomic loads/stores and data accesses '
+                  '(guarded seam in ring.hpp): interrupt-style schedules in both directions and free two-thread schedules; every history (unique values, <=6+6 ops, then '
+                  'a sequential drain) is checked by accounting (pushed == popped, in order) and by a linearizability search against a bounded FIFO. Sampling, not proof.',
+    'level_note': 'trusted: the baton scheduler and the linearizability checker in harness/irq_sim.cpp; sequential consistency only - weak-memory reorderings of the non-atomic '
+                  'data_[] accesses relative to the atomic indices cannot be shown by a serialising scheduler',
+    'assumptions': ['one producer and one consumer', 'sequentially consistent memory'],
+    'explanation': 'Real threads are parked and released one at a time (free family); interrupts are inline calls at yield points (ISR family).',
+}
+CHECKS['C13'] = {
+    'harnesses': [{'harness': 'irq_sim', 'binary': 'irq_sim'}],
+    'technique': 'deterministic simulation: seeded schedules at byte-access granularity (interrupt and thread families), accounting + linearizability against the pending-set model',
+    'design_ref': 'DESIGN.md 4.4, 6 (C13)',
+    'level_text': 'Seeded search over interleavings of producer ops (queue_notification / queue_indication) with consumer ops (dequeue, confirm) on notification_queue, with a yield '
+                  'point between the load and the store of every access to a queue byte (guarded seam in notification_queue.hpp); after a sequential drain every accepted request '
+                  'must have been dequeued exactly once and the history must be linearizable. The known lost-update race on a shared queue byte is reported as KNOWN-FINDING; any other '
+                  'loss, duplication or non-linearizable history is a VIOLATION. Sampling, not proof.',
+    'level_note': 'trusted: scheduler, accounting and linearizability checker in harness/irq_sim.cpp; sequential consistency only; the queue is driven directly (server::notify and the link layer add no synchronisation of their own)',
+    'assumptions': ['one producer context and one consumer context', 'a byte read-modify-write is a load followed by a store (LDRB/ORR/STRB)'],
+    'explanation': 'Known findings are matched by structural key (symptom + whether producer and consumer both modified the queue byte of the affected characteristic).',
+}
+
 # properties that are deliberately not decided by simulation (see DESIGN.md section 7)
 NOT_APPLICABLE = {
     'C04': 'compile-time mapping of the declaration to handles: no schedule, clock, fault or history can influence it (DESIGN.md 7); mapping errors still surface under C02/C03, whose model has an independent handle table',
